@@ -66,8 +66,112 @@ def one(entry, kw):
     return result
 
 
+def peer2(listener, result, ack_id, then):
+    """accept one connection, read CONNECT_V2 + CONNECT, acknowledge with ack_id; then: 'close' | 'reset' | 'drain'"""
+    conn, _ = listener.accept()
+    conn.settimeout(5)
+    try:
+        buf = b""
+        frames = []
+        while len(frames) < 2:
+            while len(buf) < 48:
+                buf += conn.recv(65536)
+            h = W.unpack_hdr(buf[:48])
+            n = h["nbytes"]
+            while len(buf) < 48 + n:
+                buf += conn.recv(65536)
+            frames.append((h, buf[48:48 + n]))
+            buf = buf[48 + n:]
+        for h, pl in frames:
+            if h["type"] == W.MT["CONNECT_V2"]:
+                lg, dm, am, mid, pid, name = W.CONNECT_V2.unpack(pl)
+                result.update(mod_id=mid, allow_multiple=am, logger=lg, name=W.cstr(name).decode("latin1"))
+            if h["type"] == W.MT["CONNECT"]:
+                result.update(v1_src_mod=h["src_mod"])
+        conn.sendall(W.pack_hdr(dict(type=W.MT["ACKNOWLEDGE"], nbytes=0, dst_mod=ack_id)))
+        if then in ("close", "reset"):
+            # connect() follows the handshake with MODULE_READY: let it through, then end the connection
+            while len(buf) < 52:
+                d = conn.recv(65536)
+                if not d:
+                    break
+                buf += d
+        if then == "reset":
+            conn.setsockopt(socket.SOL_SOCKET, socket.SO_LINGER, struct.pack("ii", 1, 0))
+        elif then == "drain":
+            conn.settimeout(1)
+            try:
+                while conn.recv(65536):
+                    pass
+            except Exception:
+                pass
+    except Exception as e:
+        result["peer_exc"] = type(e).__name__
+    finally:
+        conn.close()
+
+
+def reconnect(how, mid, lg, am, name):
+    """ONE Client object connecting twice: the second connection request must again be what the caller asked for when
+    the object was made (id 0 asks for a fresh dynamic id; an explicit id is asked for again), however the first
+    connection ended: disconnect(), the peer closing / resetting it (ConnectionLost on the next read), or connect()
+    called while still connected"""
+    from pyrtma.client import Client
+    from pyrtma.exceptions import ConnectionLost
+    res = []
+    c = Client(module_id=mid, name=name)
+    ids = (150, 151) if mid == 0 else (mid, mid)
+    events = []
+    for k in (0, 1):
+        lst = socket.socket()
+        lst.bind(("127.0.0.1", 0))
+        lst.listen(1)
+        port = lst.getsockname()[1]
+        r = {}
+        then = "drain" if (k == 1 or how in ("disconnect", "while-connected")) else how
+        t = threading.Thread(target=peer2, args=(lst, r, ids[k], then))
+        t.start()
+        try:
+            c.connect(f"127.0.0.1:{port}", logger_status=lg, allow_multiple=am)
+            r["adopted"] = c.module_id
+            if k == 0 and how in ("close", "reset"):
+                t.join(10)
+                try:
+                    for _ in range(3):
+                        c.read_message(timeout=0.5)
+                    events.append("no-error")
+                except ConnectionLost:
+                    events.append("ConnectionLost")
+                r["connected_after_loss"] = c.connected
+            elif k == 0 and how == "disconnect":
+                c.disconnect()
+        except Exception as e:  # noqa
+            r["exc"] = type(e).__name__
+        if k == 1:
+            try:
+                c._sock.close(); c._connected = False
+            except Exception:
+                pass
+        t.join(10)
+        lst.close()
+        res.append(r)
+    return res, events
+
+
 def main():
     out = []
+    for how in ("disconnect", "close", "reset", "while-connected"):
+        for mid, lg, am, name in itertools.product((0, 12), (False, True), (False, True), ("", "nm")):
+            (r1, r2), ev = reconnect(how, mid, lg, am, name)
+            want = dict(first_request=mid, second_request=mid, adopted_1=150 if mid == 0 else mid, adopted_2=151 if mid == 0 else mid,
+                        allow_multiple_2=int(am), logger_2=int(lg), name_2=name)
+            got = dict(first_request=r1.get("mod_id"), second_request=r2.get("mod_id"), adopted_1=r1.get("adopted"),
+                       adopted_2=r2.get("adopted"), allow_multiple_2=r2.get("allow_multiple"), logger_2=r2.get("logger"),
+                       name_2=r2.get("name"))
+            if how in ("close", "reset"):
+                want["loss"] = ["ConnectionLost"]; got["loss"] = ev
+            out.append(dict(entry="reconnect-after-" + how, args=dict(module_id=mid, logger=lg, allow_multiple=am, name=name),
+                            want=want, got=got))
     for entry in ("Client.connect", "client_context"):
         for mid, lg, dm, am, name in itertools.product((0, 12), (False, True), (False, True), (False, True), ("", "nm")):
             if entry == "client_context" and dm:
